@@ -13,7 +13,7 @@ use serde::{Deserialize, Serialize};
 use serde_json::{json, Value};
 
 pub const HWM: usize = 131_072;
-pub const SIZES: [usize; 7] = [1, 1_000, 65_536, 131_071, 131_072, 131_073, 200_000];
+pub const SIZES: [usize; 10] = [1, 1_000, 65_536, 131_071, 131_072, 131_073, 200_000, 254, 255, 256];
 
 #[derive(Debug, Clone, Serialize, Deserialize, PartialEq, Eq, Hash)]
 pub enum WinEv {
@@ -49,6 +49,8 @@ fn message(seq: usize, size: usize) -> Frames {
         // repeated frames / empty frames: what reaches a subscriber must still be WHOLE messages
         3 => vec![format!("t{:06}", seq).into_bytes(), body.clone(), body],
         5 => vec![format!("t{:06}", seq).into_bytes(), vec![], body, vec![]],
+        // a first frame of exactly 255 bytes (the last size with a one-byte length)
+        6 => vec![format!("t{:06}{}", seq, ".".repeat(248)).into_bytes(), body],
         _ => vec![format!("t{:06}", seq).into_bytes(), body],
     }
 }
@@ -76,7 +78,9 @@ fn matches_filter(m: &Frames, filtered: bool) -> bool {
 fn seq_of(m: &Frames) -> Option<usize> {
     let t = std::str::from_utf8(m.first()?).ok()?;
     let t = t.strip_prefix('t')?;
-    t.strip_prefix('t').unwrap_or(t).parse().ok()
+    let t = t.strip_prefix('t').unwrap_or(t);
+    let digits: String = t.chars().take_while(|c| c.is_ascii_digit()).collect();
+    digits.parse().ok()
 }
 
 pub fn slow_outcome(c: &SlowCase) -> Outcome {
@@ -606,7 +610,7 @@ pub fn run(ctx: &Ctx) -> (Report, PropertyMeta) {
         }
     }
     let r = run_cases(ctx, "slow", &cases, slow_outcome);
-    report.exhaustive_parts.push(format!("PUB/XPUB x with/without a healthy subscriber x 6 stall budgets x 7 message sizes around the 128 KiB high-water mark x (stall-then-resume, never-drain + broken peer): {} cases", cases.len()));
+    report.exhaustive_parts.push(format!("PUB/XPUB x with/without a healthy subscriber x 6 stall budgets x 10 message sizes (the 255-byte frame boundary, the 128 KiB high-water mark) x (stall-then-resume, never-drain + broken peer): {} cases", cases.len()));
     report.merge(r);
     let n = t.pick(2500, 100_000);
     let budget = t.pick(3 << 20, 8 << 20);
@@ -622,7 +626,7 @@ pub fn run(ctx: &Ctx) -> (Report, PropertyMeta) {
 
     let meta = PropertyMeta {
         level: "fault_enumeration",
-        rule: "real PUB and XPUB sockets with raw subscribers whose write side follows a generated back-pressure pattern (accept k bytes then stall, k-byte partial writes, resume, never drain, BrokenPipe) while 20..400 tagged messages with sizes from {1, 1000, 65536, 131071, 131072, 131073, 200000} are published. Oracles: (1) every publish completes with no window action in between; (2) a subscriber that accepts every write receives every publish, in order; (3) a slow subscriber's wire is a well-formed ZMTP stream whose complete messages are an unmodified, order-preserving subsequence of the MATCHING publishes (in a third of the cases everybody subscribes to 'tt' and half of the publishes have a first frame that is a proper prefix of it, empty or unrelated; a trailing fragment only on a broken connection and then a prefix of a later publish); (4) of the bytes published while a subscriber was stalled at most HWM + one message reach it later, and live heap (counting allocator) grows by at most 2 x (HWM + largest message) + 64 KiB per stalled subscriber while all subscribers are stalled; (5) a broken subscriber does not make publish fail. Non-trivial = a subscriber stalls while >= HWM bytes are published and later resumes; distinct by case".into(),
+        rule: "real PUB and XPUB sockets with raw subscribers whose write side follows a generated back-pressure pattern (accept k bytes then stall, k-byte partial writes, resume, never drain, BrokenPipe) while 20..400 tagged messages with sizes from {1, 254, 255, 256, 1000, 65536, 131071, 131072, 131073, 200000} are published. Oracles: (1) every publish completes with no window action in between; (2) a subscriber that accepts every write receives every publish, in order; (3) a slow subscriber's wire is a well-formed ZMTP stream whose complete messages are an unmodified, order-preserving subsequence of the MATCHING publishes (in a third of the cases everybody subscribes to 'tt' and half of the publishes have a first frame that is a proper prefix of it, empty or unrelated; a trailing fragment only on a broken connection and then a prefix of a later publish); (4) of the bytes published while a subscriber was stalled at most HWM + one message reach it later, and live heap (counting allocator) grows by at most 2 x (HWM + largest message) + 64 KiB per stalled subscriber while all subscribers are stalled; (5) a broken subscriber does not make publish fail. Non-trivial = a subscriber stalls while >= HWM bytes are published and later resumes; distinct by case".into(),
         assumptions: vec!["the high-water mark is asynchronous-codec's default send HWM (131072 bytes), which the library does not change".into()],
         exhaustive: false,
     };
